@@ -1217,14 +1217,151 @@ def _ident(rel, name):
     return f"r_{mod}__{name}".replace("__", "_x_") if False else f"r_{mod}_{name}"
 
 
+# =============================================================================================
+# 3. memo tables of module-level objects (ReferenceEvaluator) -> Gen/EvaluatorCache.v
+# =============================================================================================
+
+MEMO_CLASS_FILE = "onnxscript/optimizer/_constant_folding.py"
+MEMO_CLASSES = ["ReferenceEvaluator"]
+MEMO_DECORATOR_FILES = ["onnxscript/optimizer/_constant_folding.py", "onnxscript/rewriter/_rewrite_rule.py",
+                        "onnxscript/rewriter/_pattern_ir.py", "onnxscript/rewriter/_basics.py",
+                        "onnxscript/version_converter/_version_converter.py", "onnxscript/_internal/values.py"]
+
+
+def _params_of(fn):
+    a = fn.args
+    names = [x.arg for x in a.posonlyargs + a.args + a.kwonlyargs]
+    if a.vararg:
+        names.append(a.vararg.arg)
+    if a.kwarg:
+        names.append(a.kwarg.arg)
+    return [n for n in names if n not in ("self", "cls")]
+
+
+def _is_cache_decorator(d):
+    t = ast.unparse(d)
+    return any(x in t for x in ("lru_cache", "functools.cache", "cached_property")) or t == "cache"
+
+
+def evaluator_memos(repo):
+    """Every memo table of the classes in MEMO_CLASSES: which parameters of the memoizing method form the key and
+    which parameters the method uses at all (what is computed on a miss can depend on any of them)."""
+    memos, problems = [], []
+    path = os.path.join(repo, MEMO_CLASS_FILE)
+    tree = ast.parse(open(path).read())
+    classes = {n.name: n for n in tree.body if isinstance(n, ast.ClassDef)}
+    for cname in MEMO_CLASSES:
+        cls = classes.get(cname)
+        if cls is None:
+            problems.append(f"{MEMO_CLASS_FILE}: class {cname} not found")
+            continue
+        if len([b for b in cls.bases if ast.unparse(b) not in ("object",)]) > 0:
+            problems.append(f"{MEMO_CLASS_FILE}: class {cname} has base classes (state may live there)")
+        for m in cls.body:
+            if isinstance(m, (ast.Assign, ast.AnnAssign)):
+                v = m.value
+                if v is not None and not isinstance(v, ast.Constant):
+                    problems.append(f"{MEMO_CLASS_FILE}:{m.lineno}: class-level state in {cname}")
+                continue
+            if not isinstance(m, ast.FunctionDef):
+                if not (isinstance(m, ast.Expr) and isinstance(m.value, ast.Constant)) and not isinstance(m, ast.Pass):
+                    problems.append(f"{MEMO_CLASS_FILE}:{m.lineno}: unrecognised member of {cname}")
+                continue
+            params = _params_of(m)
+            for d in m.decorator_list:
+                if _is_cache_decorator(d):
+                    memos.append({"owner": cname, "field": m.name + "@" + ast.unparse(d).split("(")[0].split(".")[-1], "key": params, "fun": params})
+                elif ast.unparse(d) not in ("staticmethod", "classmethod", "property"):
+                    problems.append(f"{MEMO_CLASS_FILE}:{m.lineno}: unknown decorator {ast.unparse(d)} on {cname}.{m.name}")
+            used = [n.id for n in ast.walk(m) if isinstance(n, ast.Name) and n.id in params]
+            used = _dedupe(used)
+            local_assign = {}
+            for n in ast.walk(m):
+                if isinstance(n, (ast.Global, ast.Nonlocal)):
+                    problems.append(f"{MEMO_CLASS_FILE}:{n.lineno}: {cname}.{m.name} uses global/nonlocal state")
+                if isinstance(n, ast.Assign) and len(n.targets) == 1 and isinstance(n.targets[0], ast.Name):
+                    local_assign.setdefault(n.targets[0].id, []).append(n.value)
+            for n in ast.walk(m):
+                # self.F = ... outside __init__
+                if isinstance(n, ast.Attribute) and _is_self(n.value) and isinstance(n.ctx, (ast.Store, ast.Del)) and m.name != "__init__":
+                    problems.append(f"{MEMO_CLASS_FILE}:{n.lineno}: {cname}.{m.name} assigns self.{n.attr} (state of a shape this translator does not know)")
+                key_expr, fld = None, None
+                if isinstance(n, ast.Subscript) and isinstance(n.ctx, ast.Store):
+                    root = _field_root(n.value, {})
+                    if root is not None:
+                        if not (isinstance(n.value, ast.Attribute) and _is_self(n.value.value)):
+                            problems.append(f"{MEMO_CLASS_FILE}:{n.lineno}: nested store into self.{root}")
+                            continue
+                        key_expr, fld = n.slice, root
+                if isinstance(n, ast.Call) and isinstance(n.func, ast.Attribute) and n.func.attr in MUTATORS:
+                    root = _field_root(n.func.value, {})
+                    if root is not None and m.name != "__init__":
+                        if n.func.attr == "setdefault" and n.args and isinstance(n.func.value, ast.Attribute) and _is_self(n.func.value.value):
+                            key_expr, fld = n.args[0], root
+                        else:
+                            problems.append(f"{MEMO_CLASS_FILE}:{n.lineno}: {cname}.{m.name} mutates self.{root} with .{n.func.attr}()")
+                if key_expr is None:
+                    continue
+                if m.name == "__init__":
+                    problems.append(f"{MEMO_CLASS_FILE}:{n.lineno}: {cname}.__init__ fills self.{fld}")
+                    continue
+                if isinstance(key_expr, ast.Name) and key_expr.id not in params:
+                    vals = local_assign.get(key_expr.id, [])
+                    if len(vals) != 1:
+                        problems.append(f"{MEMO_CLASS_FILE}:{n.lineno}: key variable {key_expr.id} of self.{fld} is not assigned exactly once")
+                        continue
+                    key_expr = vals[0]
+                kp = []
+                okk = True
+                for x in ast.walk(key_expr):
+                    if isinstance(x, ast.Name):
+                        if x.id in params:
+                            kp.append(x.id)
+                        elif x.id not in ("str", "int", "tuple", "id", "type", "repr", "len", "float", "bool", "frozenset", "sorted"):
+                            okk = False
+                    if isinstance(x, (ast.Attribute, ast.Lambda, ast.ListComp, ast.GeneratorExp)) and _is_self(getattr(x, "value", None)):
+                        okk = False
+                if not okk:
+                    problems.append(f"{MEMO_CLASS_FILE}:{n.lineno}: key expression {ast.unparse(key_expr)} of self.{fld} mentions names other than the method's parameters")
+                    continue
+                rec = {"owner": cname, "field": f"{fld}@{m.name}", "key": _dedupe(kp), "fun": used}
+                if rec not in memos:
+                    memos.append(rec)
+    # cached functions elsewhere in the anchored files: functools keys on all arguments
+    for rel in MEMO_DECORATOR_FILES:
+        pth = os.path.join(repo, rel)
+        if not os.path.exists(pth):
+            problems.append(f"{rel}: file not found")
+            continue
+        t = ast.parse(open(pth).read())
+        for n in ast.walk(t):
+            if isinstance(n, (ast.FunctionDef, ast.AsyncFunctionDef)):
+                for d in n.decorator_list:
+                    if _is_cache_decorator(d):
+                        ps = _params_of(n)
+                        rec = {"owner": os.path.basename(rel)[:-3], "field": n.name + "@" + ast.unparse(d).split("(")[0].split(".")[-1], "key": ps, "fun": ps}
+                        if rec not in memos and not (rel == MEMO_CLASS_FILE and any(r["field"] == rec["field"] for r in memos)):
+                            memos.append(rec)
+    fl = lambda fs: "[" + "; ".join('"' + f + '"' for f in fs) + "]"
+    out = ["(* generated by harness/c14_translate.py (evaluator_memos) from " + MEMO_CLASS_FILE + " and cache decorators in the anchored files -- do not edit *)",
+           "From Coq Require Import List String.", "Require Import OV.Determinism.KeyedCache.", "Import ListNotations.",
+           "Local Open Scope string_scope.", "", "Definition memos : list memo_site := ["]
+    out.append(";\n".join(f'  {{| m_owner := "{r["owner"]}"; m_field := "{r["field"]}"; m_key_params := {fl(r["key"])}; m_fun_params := {fl(r["fun"])} |}}' for r in memos))
+    out.append("].")
+    return "\n".join(out) + "\n", memos, problems
+
+
 if __name__ == "__main__":
     import sys
     repo = sys.argv[1] if len(sys.argv) > 1 else "/repo"
     text, sites, probs = converter_sites(repo)
     print(text)
     print("PROBLEMS", probs)
+    text, memos, probs = evaluator_memos(repo)
+    print(text)
+    print("PROBLEMS", probs)
     text, rules, probs = rule_cfgs(repo)
-    print(text[:3000])
+    print(text[:300])
     print("PROBLEMS", probs)
     print(len(rules), "rules;", sum(ir_size(r["check"]) + ir_size(r["rewrite"]) for r in rules), "nodes")
     for r in rules:
